@@ -48,6 +48,26 @@ CHECKS = {
    "All 65536 types are pushed through the three dispatchers, the unknown parser and the 16 tag-specific parsers; every known type's well-formed contents with every deviation, every content string up to the stated length and every list of <= k catalogue extensions are decoded and compared with the reference; tag == wire type, pairwise dispatcher agreement and tag-parser exclusivity are checked on every case.",
    "Trusted: reference extension grammar (DESIGN appendix D) and the RFC 8701 GREASE set. Which known types the client/server dispatchers decode is not prescribed (undecoded known types must be preserved as Unknown).",
    "DESIGN.md section 3 C05, appendix D"),
+ "C10": (True, "exploration",
+   "complete sweeps of the DTLS record and handshake header fields plus small-scope enumeration of bodies with deviations, against reference framing and strict DTLS walkers",
+   "All types, epochs, versions, declared lengths (at every characteristic cut point), sequence-number byte and bit patterns, the (length, offset, fragment length) boundary cube, all message_seq values and cookie lengths are enumerated; every catalogue message / record with every deviation is compared with the strict walker; the is_fragment() predicate and the 13-byte streaming contract are checked on each case.",
+   "Trusted: reference framing in c10.rs and strict DTLS walkers (DESIGN appendix D). 48-bit sequence numbers are covered by byte/bit-pattern families, the 24-bit offset completely only in the thorough tier.",
+   "DESIGN.md section 3 C10, appendix D"),
+ "C13": (True, "exploration",
+   "bounded-exhaustive small-scope enumeration with deviations + complete sweeps of enumerated fields, against strict walkers",
+   "DH / EC / ECDH parameters, EC points of every length, both DigitallySigned forms and content+signature pairs under both flag values are enumerated with every deviation; all named groups, curve types and algorithm pairs are swept completely; every short string over a small alphabet goes through each of the 12 entry points.",
+   "Trusted: strict walkers (DESIGN appendix D). Field contents are patterns; lengths cover the boundary values stated in the evidence.",
+   "DESIGN.md section 3 C13"),
+ "C14": (True, "exploration",
+   "bounded-exhaustive small-scope enumeration of SCT entries and lists with deviations on the three nested length prefixes, complete field sweeps, framed tails, against a strict RFC 6962 walker",
+   "Every catalogue entry / list with every single (quick) or double (thorough) lying length, cut and suffix, all versions and algorithm pairs, timestamp bit/byte patterns and every tail behind a well-formed SCT prefix are decoded and compared; malformed lists may only yield the entries before the first bad one, all inside the declared list.",
+   "Trusted: strict walker (DESIGN appendix D); 64-bit timestamps by pattern families.",
+   "DESIGN.md section 3 C14"),
+ "C16": (True, "exploration",
+   "bounded-exhaustive enumeration of record concatenations x terminators and of strings over record-oriented alphabets; differential oracle = explicit loop over the real single-record parser",
+   "Every concatenation of 0..k catalogue records followed by every terminator class, and every string up to the stated length over record-oriented alphabets, is parsed by the multi-record parsers and by an explicit loop over the single-record parser; records, stop position and failure condition must coincide; the deprecated alias must equal parse_tls_plaintext on every buffer.",
+   "Trusted: the single-record parsers (decided by C02/C03/C10).",
+   "DESIGN.md section 3 C16"),
 }
 PENDING_REASON = "check not built yet in this round (work in progress; see DESIGN.md appendix C for the build order)"
 
